@@ -20,7 +20,9 @@ along with evo.  If not, see <http://www.gnu.org/licenses/>.
 
 import json
 import logging
+import os
 import typing
+import uuid
 from pathlib import Path
 
 from colorama import Fore
@@ -83,9 +85,26 @@ def merge_dicts(first: dict, second: dict, soft: bool = False) -> dict:
     return first
 
 
+def write_atomic(path: typing.Union[Path, str], text: str) -> None:
+    """
+    Writes text to a temporary file next to path and then moves it in place,
+    such that the file at path is never seen empty or partially written
+    (e.g. by concurrently starting processes, or after a crash).
+    """
+    path = Path(path)
+    tmp_path = path.with_name("{}.{}.tmp".format(path.name, uuid.uuid4().hex))
+    try:
+        with open(tmp_path, 'w') as tmp_file:
+            tmp_file.write(text)
+        os.replace(tmp_path, path)
+    except BaseException:
+        if tmp_path.exists():
+            tmp_path.unlink()
+        raise
+
+
 def write_to_json_file(json_path: Path, dictionary: dict) -> None:
-    with open(json_path, 'w') as json_file:
-        json_file.write(json.dumps(dictionary, indent=4, sort_keys=True))
+    write_atomic(json_path, json.dumps(dictionary, indent=4, sort_keys=True))
 
 
 def reset(destination: Path = DEFAULT_PATH,
@@ -107,11 +126,10 @@ def initialize_if_needed() -> None:
     Initialize evo user folder after first installation
     (or if it was deleted).
     """
-    if not USER_ASSETS_PATH.exists():
-        USER_ASSETS_PATH.mkdir()
+    USER_ASSETS_PATH.mkdir(exist_ok=True)
 
     if not USER_ASSETS_VERSION_PATH.exists():
-        open(USER_ASSETS_VERSION_PATH, 'w').write(__version__)
+        write_atomic(USER_ASSETS_VERSION_PATH, __version__)
 
     if not DEFAULT_PATH.exists():
         try:
@@ -136,7 +154,7 @@ def update_if_outdated() -> None:
     updated_settings = merge_dicts(old_settings, DEFAULT_SETTINGS_DICT,
                                    soft=True)
     write_to_json_file(DEFAULT_PATH, updated_settings)
-    open(USER_ASSETS_VERSION_PATH, 'w').write(__version__)
+    write_atomic(USER_ASSETS_VERSION_PATH, __version__)
     print("{}Updated outdated {}{}".format(Fore.LIGHTYELLOW_EX, DEFAULT_PATH,
                                            Fore.RESET))
 
